@@ -168,6 +168,17 @@ ARG_OPS = [
      lambda z: (pb.Phase(np.array([20.0, 3.0, -7.0]), np.array([-0.3, 0.45, 0.2])), np.array([1.0, 2.5]), np.array([0.75, -0.25]) * u.cycle),
      lambda z, ph, a, q: (pb.pulsar.FractionalPhase(ph, wrap_angle=1 * u.cycle), pb.pulsar.FractionalPhase(ph), pb.pulsar.FractionalPhase(q, wrap_angle=0.25 * u.cycle),
                           pb.Phase(a, a / 8), pb.Phase(q), ph * a[:1], ph + q[:1], ph.sort(), ph % (0.3 * u.cycle), ph.to_string(precision=3))),
+    # conversions of a Phase to plain numbers, with and without permission to share memory
+    ("Phase converted to other dtypes (astype with copy=False, asarray, value)", lambda z: True,
+     lambda z: (pb.Phase(np.array([20.0, 3.0, -7.0]), np.array([-0.3, 0.45, 0.2])), pb.Phase(5.0, 0.25)),
+     lambda z, ph, p0: (ph.astype(np.float64, copy=False), ph.astype("f8", copy=False), ph.astype(float, copy=False), ph.astype(float),
+                        ph.astype(np.float32, copy=False), ph.astype(np.float64, copy=True), ph.cycle, ph.value, ph.to_value(u.deg),
+                        p0.astype(np.float64, copy=False), float(p0.value), ph.int, ph.frac, ph.copy())),
+    # text forms of a signal whose meta holds arrays and Quantities of more than a few elements
+    ("text forms of a signal with arrays in meta", lambda z: True,
+     lambda z: (type(z).like(z, meta={"gains": np.arange(40.0) * 1.5, "freqs": np.linspace(1, 2, 48) * u.GHz, "flags": np.zeros((6, 7), bool),
+                                      "k": 1}),),
+     lambda z, z2: (str(z2), repr(z2), f"{z2}", "{!s:>10}".format(z2), z2._attr_repr() if hasattr(z2, "_attr_repr") else None)),
     ("contains(Time array)", lambda z: True, lambda z: (Time(["2021-01-01T00:00:00", "2021-01-01T00:00:00.000005"], precision=9),),
      lambda z, t: z.contains(t)),
     ("ufunc with ndarray operand", lambda z: True, lambda z: (np.ones(z.shape[-1]),), lambda z, a: z * a),
